@@ -75,6 +75,10 @@ def render(name, s, e, nlook, prefix=None):
     # keep the START words exactly as enumerated; only END enum positions are forced in-domain
     pre = prefix_events(name, s, prefix)
     between = []
+    if prefix == 'other-call-opened-inside':
+        between = [E.ev('BSC_getuid', 1, OTHER), E.ev('MACH_WAIT', 0, OTHER)]
+    if prefix == 'two-lost-ends-before':
+        pre = [E.ev('BSC_getuid', 1, OTHER), E.ev(name, 1, prefix_events(name, s, 'stale-start')[0].values)]
     if prefix == 'long-window':
         # 5000 stand-alone records of the same thread (with words that are nobody's argument) between START and END
         between = [E.ev('MACH_vm_page_release' if i % 2 else 'MACH_WAIT', 0, OTHER) for i in range(5000)]
@@ -145,8 +149,8 @@ class C09(Check):
             'enum-valued positions (frozen table) over every member, ioctl request over Darwin _IOC words - x 3 END tuples '
             '(success, failure, other values) with 0 lookups, every point with <=2 non-default words with 2 nested lookups, and every '
             'point with <=1 non-default word preceded by {an earlier START of the same call whose END was lost, a stray END, the same '
-            'call still open on another thread (parser built with a populated thread map; also crossing: A.START B.START A.END B.END), another call still open on the same thread} carrying words that never equal an '
-            'enumerated one; windows whose nested lookups carry timestamps below the START tick and whose END carries the START tick; and one window per decoder with 5000 stand-alone same-thread records between START and END. '
+            'call still open on another thread (parser built with a populated thread map; also crossing: A.START B.START A.END B.END), another call still open on the same thread, another call opened inside the window and still open at its END, two calls whose ENDs were lost} carrying words that never equal an '
+            'enumerated one; windows whose nested lookups carry timestamps below the START tick and whose END carries the START tick; two consecutive calls per decoder read from v2 / v3 dump files whose records all carry the same timestamp; and one window per decoder with 5000 stand-alone same-thread records between START and END. '
             'Oracle: every integer-literal token at position k is one of the renderings {u64, i64, u32, i32 decimal; u64, u32 hex} of '
             'START word k in every run; no numeric token beyond position 3; call part identical across END tuples. Distinct by '
             'construction; non-trivial = the rendering is call-style and shows at least one numeric token.')
@@ -157,9 +161,38 @@ class C09(Check):
         return {'decoders': len(call_decoders()), 'numeric_values_per_position': 5 if self.tier == 'quick' else 8}
 
     def shards(self):
-        return [('dec', ch) for ch in chunked(call_decoders(), 128)]
+        return [('dec', ch) for ch in chunked(call_decoders(), 128)] + [('files', ch) for ch in chunked(call_decoders(), 8)]
+
+    def run_files(self, names, acc):
+        """the same calls read from dump FILES (v2 and v3, one and two chunks) in which all records carry the SAME timestamp and
+        the second call's START bytes sort before the first call's END bytes: renderings equal those of the direct feed."""
+        import io
+        from pykdebugparser.pykdebugparser import PyKdebugParser
+        tc = dict(E.codes())
+        for name in names:
+            s1, e1 = D.in_domain(name, 'se', (0x7111, 0x7222, 0x7333, 0x7444), (0xffff, 0x55, 0x66, 0x77), 1)
+            s2, e2 = D.in_domain(name, 'se', (0x0011, 0x0022, 0x0033, 0x0044), (0, 0x15, 0x16, 0x17), 2)
+            if name in ('BSC_getsockopt', 'BSC_setsockopt'):
+                s1, s2 = (s1[0], 6, s1[2], s1[3]), (s2[0], 6, s2[2], s2[3])
+            evs = [E.ev(name, 1, s1), E.ev(name, 2, e1), E.ev(name, 1, s2), E.ev(name, 2, e2)]
+            try:
+                exp = [E.stable_str(t) for t in E.new_traces_parser().feed_generator(E.restamp(evs))]
+            except Exception as ex:
+                exp = ['RAISED ' + type(ex).__name__]
+            recs = [B.rec(5, tid=1, debugid=x.debugid, data=x.data) for x in evs]
+            for label, blob in (('v2', B.v2([(1, 10, 'p')], 0, recs)), ('v3', B.v3([(1, 10, 'p')], [recs])), ('v3-2chunks', B.v3([(1, 10, 'p')], [recs[:2], recs[2:]]))):
+                try:
+                    got = [str(t) for t in PyKdebugParser().traces(io.BytesIO(blob), tc)]
+                except Exception as ex:
+                    got = ['RAISED ' + type(ex).__name__]
+                acc.case(nontrivial=True, transitions=4, outcome=None)
+                if got != exp:
+                    acc.violation(f'rendering-from-file-differs-from-direct-feed:{label}@{name}', {'decoder': name, 'start': [hex(x) for x in s1], 'lookups': 0, 'prefix': 'files'},
+                                  {'from_file': got, 'direct': exp})
 
     def run_shard(self, desc, acc):
+        if desc[0] == 'files':
+            return self.run_files(desc[1], acc)
         for name in desc[1]:
             doms = word_domains(name, self.tier)
             style = None
@@ -183,7 +216,7 @@ class C09(Check):
             for s in deviation_bounded(doms, 1):
                 if name in ('BSC_getsockopt', 'BSC_setsockopt') and s[1] in (1, 0xffff):
                     continue
-                for prefix in ('stale-start', 'stray-end', 'other-thread-open', 'other-thread-crossing', 'other-call-open', 'odd-timestamps') + (('long-window',) if s == tuple(d[0] for d in doms) else ()):
+                for prefix in ('stale-start', 'stray-end', 'other-thread-open', 'other-thread-crossing', 'other-call-open', 'other-call-opened-inside', 'two-lost-ends-before', 'odd-timestamps') + (('long-window',) if s == tuple(d[0] for d in doms) else ()):
                     nl = 2 if prefix == 'odd-timestamps' else 0
                     bad, call = judge(name, s, nl, prefix)
                     self._acc(acc, name, s, nl, (bad[0] + ':after-' + prefix, bad[1]) if bad else None, call, prefix)
@@ -201,6 +234,11 @@ class C09(Check):
     def replay(self, case):
         s = tuple(int(x, 16) for x in case['start'])
         pre = case.get('prefix')
+        if pre == 'files':
+            from mc.run import Acc
+            acc = Acc()
+            self.run_files([case['decoder']], acc)
+            return [(sig, v['cases'][0][1]) for sig, v in acc.violations.items()]
         bad, _ = judge(case['decoder'], s, case['lookups'], pre)
         return [(f"{bad[0]}{':after-' + pre if pre else ''}@{case['decoder']}", bad[1])] if bad else []
 
